@@ -437,20 +437,79 @@ theorem connWrite_nlogs (w : World) (c : ConnSt) (p : Bytes) (w' : World) (c' : 
 theorem dropConn_nlogs (w : World) (c : ConnSt) : (dropConn w c).logs.length = w.logs.length := by
   unfold dropConn; split <;> simp
 
-/-- what a step on a connection leaves alone: which connection is live, how many slots exist, whose connection it is. -/
+/-! #### the log of every OTHER connection is left alone -/
+
+theorem log_other (w : World) (k j : Nat) (s : String) (h : j ≠ k) : (w.log k s).logs[j]? = w.logs[j]? := by
+  simp only [World.log, List.getElem?_modify]
+  have : ¬ k = j := fun e => h e.symm
+  cases w.logs[j]? <;> simp [this]
+
+theorem releaseItems_others : ∀ (n : Nat) (w : World) (c : ConnSt) (j : Nat), j ≠ c.id →
+    (releaseItems n w c).1.logs[j]? = w.logs[j]? := by
+  intro n
+  induction n with
+  | zero => intro w c j _; rfl
+  | succ n ih =>
+    intro w c j hj
+    simp only [releaseItems]
+    split
+    · rfl
+    · split
+      · rfl
+      · split
+        · exact ih _ _ j (by rw [put_id]; exact hj)
+        · exact ih _ _ j (by rw [put_id]; exact hj)
+        · exact ih _ _ j (by rw [put_id]; exact hj)
+        · rfl
+        · exact log_other _ _ _ _ hj
+
+theorem termRx_others (w : World) (c : ConnSt) (p : Bytes) (j : Nat) (hj : j ≠ c.id) :
+    (termRx w c p).1.logs[j]? = w.logs[j]? := by
+  unfold termRx
+  simp only
+  split
+  · rw [releaseItems_others 1 _ _ j hj]; exact log_other _ _ _ _ hj
+  · refine Eq.trans (releaseItems_others 2 _ _ j ?_) ?_
+    · exact hj
+    · exact log_other w c.id j _ hj
+
+theorem connWrite_others (w : World) (c : ConnSt) (p : Bytes) (w' : World) (c' : ConnSt)
+    (h : connWrite w c p = some (w', c')) (j : Nat) (hj : j ≠ c.id) : w'.logs[j]? = w.logs[j]? := by
+  unfold connWrite at h
+  split at h
+  · simp at h
+  · simp at h
+    have := termRx_others w c p j hj
+    rw [h] at this; exact this
+
+theorem dropConn_others (w : World) (c : ConnSt) (j : Nat) (hj : j ≠ c.id) : (dropConn w c).logs[j]? = w.logs[j]? := by
+  unfold dropConn
+  split
+  · rfl
+  · exact log_other _ _ _ _ hj
+
+/-- what a step on a connection leaves alone: which connection is live, how many slots exist, whose connection it
+is — and the log of every other connection (nothing is sent or received on any slot but the one in use). -/
 structure FrameRel (w w' : World) (c c' : ConnSt) : Prop where
   conn : w'.conn = w.conn
   nlogs : w'.logs.length = w.logs.length
   id : c'.id = c.id
+  others : ∀ j, j ≠ c.id → w'.logs[j]? = w.logs[j]?
 
-theorem FrameRel.refl (w : World) (c : ConnSt) : FrameRel w w c c := ⟨rfl, rfl, rfl⟩
+theorem FrameRel.refl (w : World) (c : ConnSt) : FrameRel w w c c := ⟨rfl, rfl, rfl, fun _ _ => rfl⟩
 
 theorem FrameRel.trans {a b e : World} {x y z : ConnSt} (h1 : FrameRel a b x y) (h2 : FrameRel b e y z) : FrameRel a e x z :=
-  ⟨h2.conn.trans h1.conn, h2.nlogs.trans h1.nlogs, h2.id.trans h1.id⟩
+  ⟨h2.conn.trans h1.conn, h2.nlogs.trans h1.nlogs, h2.id.trans h1.id,
+   fun j hj => (h2.others j (by rw [h1.id]; exact hj)).trans (h1.others j hj)⟩
 
 theorem FrameRel.write (w : World) (c : ConnSt) (p : Bytes) (w' : World) (c' : ConnSt)
     (h : connWrite w c p = some (w', c')) : FrameRel w w' c c' :=
-  ⟨(connWrite_conn w c p w' c' h).1, connWrite_nlogs w c p w' c' h, (connWrite_conn w c p w' c' h).2⟩
+  ⟨(connWrite_conn w c p w' c' h).1, connWrite_nlogs w c p w' c' h, (connWrite_conn w c p w' c' h).2,
+   fun j hj => connWrite_others w c p w' c' h j hj⟩
+
+/-- a time-out inside a step: the connection record may differ, the world is the one reached so far. -/
+theorem FrameRel.hang {w w' : World} {c c' c2 : ConnSt} (h : FrameRel w w' c c') (hid : c2.id = c'.id) : FrameRel w w' c c2 :=
+  ⟨h.conn, h.nlogs, hid.trans h.id, h.others⟩
 
 theorem readBy_frame (dl : Nat) (w : World) (c : ConnSt) :
     match readBy dl w c with
@@ -468,12 +527,12 @@ theorem readBy_frame (dl : Nat) (w : World) (c : ConnSt) :
     simp only
     by_cases h : dl < (w.waited k).now
     · rw [if_pos h]; exact hid
-    · rw [if_neg h]; exact ⟨rfl, rfl, hid⟩
+    · rw [if_neg h]; exact ⟨rfl, rfl, hid, fun _ _ => rfl⟩
   | pkt p =>
     simp only
     by_cases h : dl < (w.waited k).now
     · rw [if_pos h]; exact hid
-    · rw [if_neg h]; exact ⟨rfl, rfl, hid⟩
+    · rw [if_neg h]; exact ⟨rfl, rfl, hid, fun _ _ => rfl⟩
 
 /-- a `stream.next()` never switches connections and opens none. -/
 theorem seqNext_frame (d : SeqDesc) (dl : Nat) (w : World) (c : ConnSt) (st : SeqSt) :
@@ -492,7 +551,7 @@ theorem seqNext_frame (d : SeqDesc) (dl : Nat) (w : World) (c : ConnSt) (st : Se
       have hr := readBy_frame dl w1 c1
       generalize readBy dl w1 c1 = q at hr ⊢
       cases q with
-      | hang c2 => exact ⟨h1.conn, h1.nlogs, (show c2.id = c1.id from hr).trans h1.id⟩
+      | hang c2 => exact h1.hang (show c2.id = c1.id from hr)
       | eof w2 c2 => exact h1.trans hr
       | pkt p w2 c2 =>
         have h2 := h1.trans (show FrameRel w1 w2 c1 c2 from hr)
@@ -504,7 +563,7 @@ theorem seqNext_frame (d : SeqDesc) (dl : Nat) (w : World) (c : ConnSt) (st : Se
           have hr2 := readBy_frame dl w2 c2
           generalize readBy dl w2 c2 = q2 at hr2 ⊢
           cases q2 with
-          | hang c3 => exact ⟨h2.conn, h2.nlogs, (show c3.id = c2.id from hr2).trans h2.id⟩
+          | hang c3 => exact h2.hang (show c3.id = c2.id from hr2)
           | eof w3 c3 => exact h2.trans hr2
           | pkt p2 w3 c3 =>
             have h3 := h2.trans (show FrameRel w2 w3 c2 c3 from hr2)
@@ -525,7 +584,7 @@ theorem seqNext_frame (d : SeqDesc) (dl : Nat) (w : World) (c : ConnSt) (st : Se
     have hr := readBy_frame dl w c
     generalize readBy dl w c = q at hr ⊢
     cases q with
-    | hang c2 => exact ⟨rfl, rfl, hr⟩
+    | hang c2 => exact (FrameRel.refl w c).hang hr
     | eof w2 c2 => exact hr
     | pkt p w2 c2 =>
       have h2 : FrameRel w w2 c c2 := hr
